@@ -202,8 +202,9 @@ type c15Pool struct {
 
 func newC15Pool() *c15Pool {
 	return &c15Pool{
-		sets: []data.IntSet{data.EmptyIntSet}, msets: []map[int]struct{}{{}},
-		maps: []data.IntMap{data.EmptyIntMap}, mmaps: []map[int]int{{}},
+		// the shared empties and the zero values (no constructor)
+		sets: []data.IntSet{data.EmptyIntSet, {}}, msets: []map[int]struct{}{{}, {}},
+		maps: []data.IntMap{data.EmptyIntMap, {}}, mmaps: []map[int]int{{}, {}},
 	}
 }
 
